@@ -1,9 +1,9 @@
 #!/usr/bin/env python3
 """Regenerates /verif/MANIFEST.json from tools/props.py and the checks that exist on disk."""
 import json, os, subprocess, sys
-sys.path.insert(0, os.path.dirname(__file__))
-from props import PROPS
+import glob
 root = os.path.dirname(os.path.dirname(os.path.abspath(__file__)))
+PROPS = {os.path.basename(f)[:-5]: json.load(open(f)) for f in glob.glob(os.path.join(root, "tools", "props", "C*.json"))}
 ids = [json.loads(l)["id"] for l in open(os.path.join(root, "properties.jsonl"))]
 hooks = subprocess.run(["git", "-C", "/repo", "log", "--format=%H %s"], capture_output=True, text=True).stdout.splitlines()
 hook_commits = [l.split()[0] for l in hooks if " verif:" in " " + l.split(" ", 1)[1]]
